@@ -1,6 +1,8 @@
 package nasConvert
 
 import (
+	"fmt"
+
 	"github.com/free5gc/nas/nasType"
 	vrt "github.com/free5gc/nas/zz_verifrt"
 )
@@ -98,6 +100,31 @@ func VH_C14_LadnToModels_long() {
 func VH_C14_RequestedNssaiToModels_long() {
 	vrt.Unwind(40)
 	buf := c14long()
+	if len(buf) > 255 {
+		buf = buf[:255]
+	}
+	nssai := &nasType.RequestedNSSAI{Iei: 0x2f, Len: uint8(len(buf)), Buffer: buf}
+	_, err := RequestedNssaiToModels(nssai)
+	_ = err
+}
+
+// many entries: k well-formed S-NSSAI entries of one of the five legal lengths (values symbolic), k around and beyond the
+// 8 entries the specification allows, followed by 0..3 arbitrary octets (a truncated or illegal further entry)
+func VH_C14_RequestedNssaiToModels_entries() {
+	vrt.Unwind(80)
+	ks := []int{0, 1, 7, 8, 9, 15, 16, 17}
+	if vrt.Thorough() {
+		ks = []int{0, 1, 2, 3, 4, 5, 6, 7, 8, 9, 10, 11, 12, 15, 16, 17, 20, 24}
+	}
+	k := ks[vrt.Choose("ksel", 0, len(ks)-1)]
+	lens := []int{1, 2, 4, 5, 8}
+	l := lens[vrt.Choose("lsel", 0, 4)]
+	var buf []byte
+	for i := 0; i < k; i++ {
+		buf = append(buf, byte(l))
+		buf = append(buf, vrt.Bytes(fmt.Sprintf("e%d", i), l)...)
+	}
+	buf = append(buf, vrt.Bytes("tail", vrt.Choose("t", 0, 3))...)
 	if len(buf) > 255 {
 		buf = buf[:255]
 	}
